@@ -295,7 +295,7 @@ func (e *env) emit(evs ...trace.Ev) {
 func main() {
 	out := flag.String("out", ".", "output directory")
 	seed := flag.Int64("seed", 1, "seed")
-	mode := flag.String("mode", "dl", "dl | sync | msg")
+	mode := flag.String("mode", "dl", "dl | sync | msg | gossip")
 	amax := flag.Int("amax", 4, "dl: largest divergence height")
 	deep := flag.Bool("deep", false, "thorough tier: more scenarios, long chains")
 	pairs := flag.Int("pairs", 12, "sync: number of concurrent node pairs")
@@ -318,6 +318,8 @@ func main() {
 		e.runSyncPairs(*pairs, *deep)
 	case "msg":
 		e.runMessages(*nrand)
+	case "gossip":
+		e.runGossip(*deep)
 	default:
 		fail("unknown mode %s", *mode)
 	}
